@@ -565,6 +565,10 @@ class Interp:
             return
         if isinstance(cur, (Vec,)) :
             res = self.models.binop(self, type(st.op).__name__, cur, rhs, st)
+            if cur.dtype in ('i8', 'u1') and getattr(res, 'dtype', None) == 'f8' and cur.kind in ('nd', 'ma'):
+                # library fact (numpy 1.26): an in-place operation whose result is float64 cannot be written back into an integer array
+                # (UFuncTypeError, a TypeError: "Cannot cast ufunc output from float64 to int64 with casting rule 'same_kind'")
+                raise AbsRaise(ExcVal('TypeError', ("Cannot cast ufunc output from dtype('float64') to an integer dtype with casting rule 'same_kind'",)), st)
             self.models.store(self, cur, slice(None), res, st)
             return
         res = self.models.binop(self, type(st.op).__name__, cur, rhs, st)
